@@ -1,6 +1,6 @@
 (* C10 — every value produced by generate_false(p) violates p.  Same model and tie as C09 (`gen_false`). *)
 From Coq Require Import QArith Bool List.
-From PP Require Import Prelude.Base Prelude.Val Prelude.Pred Prelude.Sem Lemmas.GenDSL Lemmas.GenModel Lemmas.GenSafe.
+From PP Require Import Prelude.Base Prelude.Val Prelude.Pred Prelude.Sem Lemmas.GenDSL Lemmas.GenModel Lemmas.GenSafe Lemmas.GenExamples.
 Import ListNotations.
 
 (* For every float environment with the IEEE facts, every world, constant type, supported predicate satisfying
@@ -12,3 +12,9 @@ Theorem C10_generate_false_values_violate :
   forall fuel o c, Forall (fun v => ev W p v = Some false) (fst (run fuel (gen_false fe W ck p) o c)).
 Proof. intros fe W ck Hfe p Hok fuel o c. apply run_safe. apply gen_false_safe; assumption. Qed.
 Print Assumptions C10_generate_false_values_violate.
+
+(* the hypotheses are satisfiable and the stream they speak about is not empty *)
+Theorem C10_hypotheses_nonvacuous :
+  fenv_ok fe1 /\ world_ok W1 /\ gen_ok_false W1 KInt (PGe 3) /\ fst (run 60 (gen_false fe1 W1 KInt (PGe 3)) o1 0) <> [].
+Proof. exact generate_false_hypotheses_nonvacuous. Qed.
+Print Assumptions C10_hypotheses_nonvacuous.
